@@ -269,13 +269,15 @@ class Executor:
         else:
             i = 987654
         e = op.get("ev") or {"ts": 1, "dur": 1, "d": "d1"}
-        kind = self.rnd.choice(["replace", "upsert", "delete"])
+        kind = self.rnd.choice(["replace", "upsert", "delete", "insert1"])
         rec = {"op": "foreign", "b": b, "kind": kind, "id": i if i < 2 ** 31 else -3, "out": "ok"}
         try:
             if kind == "replace":
                 self.ds[rb].replace(i, self.mkev(e))
             elif kind == "upsert":
                 self.ds[rb].insert([self.mkev(e, id=i)])
+            elif kind == "insert1":
+                self.ds[rb].insert(self.mkev(e, id=i))
             else:
                 self.ds[rb].delete(i)
         except Exception as ex:
@@ -400,6 +402,13 @@ class Executor:
                 return None
             rec["kind"] = op["kind"]
             # the missing id may look like an existing one: the id of a live bucket with the letter case swapped is a different key
+            if self.handles[b] and self.rnd.random() < 0.35:
+                # a handle obtained while the bucket existed is used for an event write now that it is gone: whatever that call
+                # does (it is outside the contract), the id stays absent and a later re-creation starts empty
+                try:
+                    self.handles[b][-1].insert(self.mkev({"ts": 1, "dur": 1, "d": "d1"}))
+                except Exception:
+                    pass
             lookalikes = [self.bname[c].swapcase() for c in self.B if c != b and self.sh_exists[c] and self.bname[c].swapcase() != self.bname[c]]
             if lookalikes and self.rnd.random() < 0.4:
                 rb = self.rnd.choice(lookalikes)
@@ -545,13 +554,16 @@ class Executor:
             if self.rnd.random() < 0.1:
                 i = 2 ** 64                      # an absurd id: rejected or ignored, never harmful to other buckets
             e = op.get("ev") or {"ts": 1, "dur": 1, "d": "d1"}
-            kind = op.get("kind") or self.rnd.choice(["replace", "upsert", "delete"])
+            kind = op.get("kind") or self.rnd.choice(["replace", "upsert", "delete", "insert1"])
             rec.update(id=i if i < 2 ** 31 else -3, kind=kind)
             try:
                 if kind == "replace":
                     ds[rb].replace(i, self.mkev(e))
                 elif kind == "upsert":
                     ds[rb].insert([self.mkev(e, id=i)])
+                elif kind == "insert1":
+                    # a SINGLE insert of an event object that carries another bucket's id (the same object inserted into two buckets)
+                    ds[rb].insert(self.mkev(e, id=i))
                 else:
                     ds[rb].delete(i)
             except Exception as ex:
